@@ -21,6 +21,8 @@ import (
 	"syscall"
 	"time"
 
+	"github.com/pkg/xattr"
+
 	"github.com/restic/restic/internal/data"
 	"github.com/restic/restic/internal/filter"
 	"github.com/restic/restic/internal/global"
@@ -36,6 +38,7 @@ type c18Node struct {
 	c, m   uint64
 	sub    []*c18Node
 	target []string
+	xattr  bool // symlink node carrying an extended attribute (not part of the model: must never land anywhere)
 }
 
 type c18Entry struct {
@@ -269,6 +272,27 @@ type c18Case struct {
 	snapID    restic.ID
 }
 
+const c18XattrName = "user.verif_c18"
+
+// c18OutsideXattr reports whether anything in the canary area carries an extended attribute.
+func c18OutsideXattr(root string) bool {
+	found := false
+	_ = filepath.Walk(filepath.Join(root, "out"), func(p string, _ os.FileInfo, err error) error {
+		if err != nil {
+			return nil
+		}
+		if names, err := xattr.LList(p); err == nil {
+			for _, nm := range names {
+				if strings.HasPrefix(nm, "user.") {
+					found = true
+				}
+			}
+		}
+		return nil
+	})
+	return found
+}
+
 var c18Old = time.Date(2001, 2, 3, 4, 5, 6, 0, time.UTC)
 var c18New = time.Date(2100, 2, 3, 4, 5, 6, 0, time.UTC)
 
@@ -302,6 +326,9 @@ func c18SaveTree(ctx context.Context, up restic.BlobSaver, root string, nodes []
 			nd.Type = data.NodeTypeSymlink
 			nd.Mode = os.ModeSymlink | 0o777
 			nd.LinkTarget = filepath.Join(append([]string{root}, n.target...)...)
+			if n.xattr {
+				nd.ExtendedAttributes = []data.ExtendedAttribute{{Name: c18XattrName, Value: []byte("x")}}
+			}
 		case 'p':
 			nd.Type = data.NodeTypeFifo
 			nd.Mode = os.ModeNamedPipe | os.FileMode(n.m)
@@ -388,7 +415,7 @@ func c18GenNode(rng *vrng, name string, depth int, adversarial bool) *c18Node {
 	case r < 70:
 		return &c18Node{kind: 'f', name: name, c: uint64(rng.intn(4)), m: uint64(rng.pick3(0o644, 0o600, 0o777))}
 	case r < 88:
-		return &c18Node{kind: 'l', name: name, target: c18LinkTargets[rng.intn(len(c18LinkTargets))]}
+		return &c18Node{kind: 'l', name: name, target: c18LinkTargets[rng.intn(len(c18LinkTargets))], xattr: rng.chance(35)}
 	case r < 95:
 		return &c18Node{kind: 'p', name: name, m: uint64(rng.pick3(0o644, 0o600, 0o666))}
 	}
@@ -584,7 +611,9 @@ func c18Regression() []*c18Case {
 		return cs
 	}
 	f := func(name string) *c18Node { return &c18Node{kind: 'f', name: name, c: 1, m: 0o777} }
-	d := func(name string, sub ...*c18Node) *c18Node { return &c18Node{kind: 'd', name: name, m: 0o755, sub: sub} }
+	d := func(name string, sub ...*c18Node) *c18Node {
+		return &c18Node{kind: 'd', name: name, m: 0o755, sub: sub}
+	}
 	// F-C18a: include a file below a pre-existing symlinked intermediate directory
 	for _, del := range []bool{false, true} {
 		cs := base("reg-include-symlinked-parent")
@@ -633,6 +662,25 @@ func c18Regression() []*c18Case {
 			sort.SliceStable(cs.tree, func(i, j int) bool { return cs.tree[i].name < cs.tree[j].name })
 			cs.del = bad == ".." || bad == "a/b"
 			cs.pre["tgt/a"] = c18Entry{kind: 'l', target: []string{"out", "d"}}
+			out = append(out, cs)
+		}
+	}
+	// symlink nodes with extended attributes: the attribute must not be set on what the link points to
+	for _, tg := range [][]string{{"out", "victim"}, {"out", "d"}, {"out"}} {
+		cs := base("reg-symlink-xattr")
+		cs.tree = []*c18Node{f("a"), {kind: 'l', name: "x", target: tg, xattr: true}}
+		out = append(out, cs)
+	}
+	// empty snapshot files (no blob is ever written) with a symlink to a canary file at their path
+	for _, ow := range []string{"always", "if-changed", "if-newer"} {
+		for _, del := range []bool{false, true} {
+			cs := base("reg-empty-file-over-symlink")
+			cs.tree = []*c18Node{{kind: 'f', name: "a", c: 0, m: 0o644}, d("c", &c18Node{kind: 'f', name: "f", c: 0, m: 0o600})}
+			cs.pre["tgt/a"] = c18Entry{kind: 'l', target: []string{"out", "victim"}}
+			cs.pre["tgt/c"] = c18Entry{kind: 'd', m: 0o755}
+			cs.pre["tgt/c/f"] = c18Entry{kind: 'l', target: []string{"out", "d", "keep"}}
+			cs.overwrite = ow
+			cs.del = del
 			out = append(out, cs)
 		}
 	}
@@ -770,10 +818,11 @@ func engineC18(c *vctx) error {
 		for j, nd := range cs.tree {
 			trees[j] = nd.coq()
 		}
-		term := fmt.Sprintf("C18m.mk %s %s %s (mkO %s %s %s) %s %s %s",
+		outX := c18OutsideXattr(root)
+		term := fmt.Sprintf("C18m.mk %s %s %s (mkO %s %s %s) %s %s %s %s",
 			c18Path(cs.T), pre.coqShared(), coqList(trees),
 			coqBool(cs.del), coqBool(always), coqBool(existing),
-			coqBool(len(cs.includes) == 0 && len(cs.excludes) == 0), tab, post.coqShared())
+			coqBool(len(cs.includes) == 0 && len(cs.excludes) == 0), tab, post.coqShared(), coqBool(outX))
 		changedOutside := 0
 		for k, v := range pre {
 			if !strings.HasPrefix(k+"/", "tgt/") {
@@ -792,8 +841,8 @@ func engineC18(c *vctx) error {
 		c.Hist(fmt.Sprintf("delete=%v", cs.del))
 		c.Hist(fmt.Sprintf("filter=%s", map[bool]string{true: "include", false: map[bool]string{true: "exclude", false: "none"}[len(cs.excludes) > 0]}[len(cs.includes) > 0]))
 		c.Hist(fmt.Sprintf("pre-symlinks-in-target=%d", min(nlinks, 3)))
-		human := fmt.Sprintf("T=%v tree=%s pre=%s ow=%s newer=%v del=%v sparse=%v inc=%v exc=%v -> err=%v panic=%v outside-changed=%d",
-			cs.T, coqList(trees), c18Brief(pre), cs.overwrite, cs.newer, cs.del, cs.sparse, cs.includes, cs.excludes, rerr != nil, panicked, changedOutside)
+		human := fmt.Sprintf("T=%v tree=%s pre=%s ow=%s newer=%v del=%v sparse=%v inc=%v exc=%v -> err=%v panic=%v outside-changed=%d outside-xattr=%v",
+			cs.T, coqList(trees), c18Brief(pre), cs.overwrite, cs.newer, cs.del, cs.sparse, cs.includes, cs.excludes, rerr != nil, panicked, changedOutside, outX)
 		c.Case(cs.kind, nlinks > 0 || strings.HasPrefix(cs.kind, "adv-tree") || strings.HasPrefix(cs.kind, "reg-"), len(pre)+len(trees), term, human)
 		_ = os.RemoveAll(root)
 	}
